@@ -38,9 +38,10 @@ def child(req):
     for k in range(req["len"]):
         op = g.next_op()
         ops.append(op)
-        r.run_op(op)
+        res = r.run_op(op)
         if op[0] == "reopen":
             g.dead = set()
+        g.note(op, res)
         g.refresh_dead()
         if rnd.random() < 0.1 and not r.readonly:
             r.f.flush()                      # earlier flushes in the history
